@@ -1,6 +1,50 @@
-(* C08: placeholder until the proofs are merged; a concrete run of the model. *)
-From BCL Require Import Model.Api.
+(* C08: Diagnostics point at the true source location (line table and line:column part; the
+   statement that every diagnostic carries the end offset of the offending token is part of the
+   parser theorems, see DESIGN.md section 6 C08). *)
+From BCL Require Import Model.Api Proofs.LineCalcProofs Proofs.LexerProofs.
+Open Scope N_scope.
+
+(* lineColAt, with its three-way case split around sort.SearchInts, computes: line = 1 + number of
+   newline offsets before pos; column = distance from the last of them (pos+1 if there is none) *)
+Theorem C08_linecol : forall lfs pos, sorted lfs ->
+  line_col_at lfs pos =
+    (1 + nlen (filter (fun a => a <? pos) lfs),
+     match last_opt (filter (fun a => a <? pos) lfs) with
+     | Some p => (Z.of_N pos - Z.of_N p)%Z
+     | None => (Z.of_N pos + 1)%Z
+     end).
+Proof. exact line_col_spec. Qed.
+Print Assumptions C08_linecol.
+
+(* the line table stored in the program equals the set of newline offsets of the source,
+   whatever the chunking *)
+Theorem C08_lfs_is_newlines : forall cs tk,
+  last_opt (fst (lex cs)) = Some tk -> ttyp tk = tEOF -> snd (lex cs) = newlines_at (concat cs) 0.
+Proof. exact lex_lfs_eof. Qed.
+Print Assumptions C08_lfs_is_newlines.
+
+Theorem C08_newlines_exact : forall s off,
+  newlines_at s off = map (fun i => off + N.of_nat i) (nl_indices s).
+Proof. exact newlines_at_spec. Qed.
+Print Assumptions C08_newlines_exact.
+
+Theorem C08_newline_index : forall s i, In i (nl_indices s) <-> nth_error s i = Some 10.
+Proof. exact nl_indices_In. Qed.
+Print Assumptions C08_newline_index.
+
+Theorem C08_lfs_sorted : forall s off, StronglySorted N.lt (newlines_at s off) /\ Forall (fun x => off <= x) (newlines_at s off).
+Proof. exact newlines_at_sorted. Qed.
+Print Assumptions C08_lfs_sorted.
+
+(* a diagnostic formatted while the lexer is still ahead of the parser reads the same line:column
+   as one formatted at the end: newlines at or beyond pos do not matter *)
+Theorem C08_independent_of_lookahead : forall l later pos,
+  sorted (l ++ later) -> (forall x, In x later -> pos <= x) -> line_col_at (l ++ later) pos = line_col_at l pos.
+Proof. exact line_col_ignores_later. Qed.
+Print Assumptions C08_independent_of_lookahead.
+
+(* non-vacuity *)
 Example C08_example :
-  pr_ok (parse_whole (bs "input") (bs "var x = 1 print x + 2 * 3")) = true.
-Proof. vm_compute. reflexivity. Qed.
-Print Assumptions C08_example.
+  line_col_at (newlines_at (bs "ab" ++ [10] ++ bs "cde" ++ [10; 10] ++ bs "f") 0) 5 = (2, 3%Z)
+  /\ snd (lex [bs "a" ++ [10]; bs "b" ++ [10]]) = [1; 3].
+Proof. vm_compute. split; reflexivity. Qed.
